@@ -279,24 +279,24 @@ Print Assumptions C18_tarjan_correct.
 (* ================= comparator soundness: what an accepted case line means ================= *)
 (* (group hI)  The check of this property accepts a case line when check_C18 (Check/C18.v) returns
    code 0 (it never returns the borderline code 1).  The theorems below say what that implies, with no
-   reference to the executable models: the line is 18 :: op :: rest with op in 1..10, [rest] is EXACTLY
+   reference to the executable models: the line is 18 :: op :: rest with op in 1..11, [rest] is EXACTLY
    the stated encoding of the case of that operation (graphs as n {deg target*}^n = enc_graph, integer
    lists count-prefixed = enc_Zs / enc_Zss; nothing is left over), the argument graph is well-formed, the
    "pure" flag is 1 and the arguments printed after the calls equal the arguments, and every observed
    value equals the specification-level value.  Proofs: Proofs/CheckC18*.v, composed with the
    model-meets-specification theorems above. *)
 From MM Require Import Check.C18 Proofs.CheckBase Proofs.CheckC18Base Proofs.CheckC18Marks Proofs.CheckC18Trav Proofs.CheckC18Scc
-  Proofs.CheckC18Graph Proofs.CheckC18Sub Proofs.CheckC18Dot Proofs.CheckC18.
+  Proofs.CheckC18Graph Proofs.CheckC18Sub Proofs.CheckC18Dot Proofs.CheckC18Hist Proofs.CheckC18.
 Local Open Scope Z_scope.
 
-(* the dispatch: every accepted line is a completely decoded case of one of the ten operations *)
+(* the dispatch: every accepted line is a completely decoded case of one of the eleven operations *)
 Theorem C18_check_ok_sound : forall line c tag pos diag,
   check_C18 line = verdict c tag pos diag -> c = 0 \/ c = 1 ->
   c = 0 /\ exists op rest, line = 18 :: op :: rest /\
     ((op = 1 /\ marks_case_ok rest) \/ (op = 2 /\ trav_case_ok rest) \/ (op = 3 /\ scc_case_ok rest) \/
      (op = 4 /\ bigraph_case_ok rest) \/ (op = 5 /\ equal_case_ok rest) \/ (op = 6 /\ simplify_case_ok rest) \/
      (op = 7 /\ keep_case_ok rest) \/ (op = 8 /\ remove_case_ok rest) \/
-     (op = 9 /\ dotstring_case_ok rest) \/ (op = 10 /\ sprint_case_ok rest)).
+     (op = 9 /\ dotstring_case_ok rest) \/ (op = 10 /\ sprint_case_ok rest) \/ (op = 11 /\ hist_case_ok rest)).
 Proof. exact check_ok_sound. Qed.
 Print Assumptions C18_check_ok_sound.
 
@@ -367,7 +367,12 @@ Print Assumptions C18_check_meaning_traversals.
    applied to the OBSERVED bytes restores the argument.  Sprint: either status 0 and the observed text is
    "digraph " ++ quoted name ++ " {\n" ++ body ++ "}\n" with body the rendering of dot_stmts (every node and
    every edge named once, in order), or status 2, no output bytes, and some statement carries an attribute whose
-   value has an unsupported type. *)
+   value has an unsupported type.
+   op 11, a history of k >= 1 calls (ops 2-8, 10) on ONE graph object: the line is k { len op sub }^k with
+   len = 1 + |sub|; there is one graph g such that every sub-line begins with the encoding of g (the graph
+   printed before every step is the graph printed before the first step) and every step satisfies the case
+   predicate of its operation on its sub-line - which includes that the argument printed after the call is the
+   argument printed before it, so the object is the same graph throughout the history. *)
 Theorem C18_check_meaning_graphops : forall rest,
   (bigraph_case_ok rest <-> exists g insN,
      rest = enc_graph g ++ 0 :: enc_Zss (map ZsN insN) ++ enc_graph g ++ 1 :: 1 :: enc_graph g /\
@@ -425,7 +430,15 @@ Theorem C18_check_meaning_graphops : forall rest,
      ((status = 0 /\ (forall s a, In s stmts -> In a (stmt_attrs s) -> snd a <> AOther) /\
        exists body, render_all stmts = Some body /\
          obs = ZsN ([100; 105; 103; 114; 97; 112; 104; 32] ++ dot_string (d_name d) ++ [32; 123; 10] ++ body ++ [125; 10])%N)
-      \/ (status = 2 /\ obs = [] /\ exists s a, In s stmts /\ In a (stmt_attrs s) /\ snd a = AOther))).
+      \/ (status = 2 /\ obs = [] /\ exists s a, In s stmts /\ In a (stmt_attrs s) /\ snd a = AOther))) /\
+  (hist_case_ok rest <-> exists (steps : list (Z * list Z)) g,
+     rest = Z.of_nat (length steps) :: flat_map (fun s => Z.of_nat (S (length (snd s))) :: fst s :: snd s) steps /\
+     steps <> [] /\
+     Forall (fun s =>
+       (exists r, snd s = enc_graph g ++ r) /\
+       ((fst s = 2 /\ trav_case_ok (snd s)) \/ (fst s = 3 /\ scc_case_ok (snd s)) \/ (fst s = 4 /\ bigraph_case_ok (snd s)) \/
+        (fst s = 5 /\ equal_case_ok (snd s)) \/ (fst s = 6 /\ simplify_case_ok (snd s)) \/ (fst s = 7 /\ keep_case_ok (snd s)) \/
+        (fst s = 8 /\ remove_case_ok (snd s)) \/ (fst s = 10 /\ sprint_case_ok (snd s)))) steps).
 Proof. exact case_meaning_graphops. Qed.
 Print Assumptions C18_check_meaning_graphops.
 
